@@ -162,3 +162,37 @@ package common
 //@   requires wfBAorNil(bA) && (bA != nil ==> o != nil)
 //@   assigns  bA.mtx.*, bA.Elems[*]
 //@   ensures  bA != nil ==> wfBA(bA)
+
+// ---------------------------------------------------------------------------------------------
+// Heap (C16): abstract model of the priority queue built on container/heap. Only the root is tracked:
+// a pushed element becomes the root exactly if the heap was empty or its priority is strictly Less than
+// the root's priority. container/heap itself is not verified (trusted contracts).
+
+//@ spec prioLess(p Iface, q Iface) Bool
+//@ ghost hpN RefIntArr
+//@ ghost hpTop Array[Ref,Iface]
+//@ ghost hpPrio Array[Ref,Iface]
+
+//@ func NewHeap
+//@   props C16
+//@   trusted
+//@   assigns  hpN
+//@   ensures  result != nil && fresh(result) && hpN == store(old(hpN), result, 0)
+
+//@ func (*Heap).Push
+//@   props C16
+//@   trusted
+//@   requires h != nil && priority != nil
+//@   assigns  hpN, hpTop, hpPrio, h.pq
+//@   let takes = old(hpN)[h] == 0 || prioLess(priority, old(hpPrio)[h])
+//@   ensures  hpN == store(old(hpN), h, old(hpN)[h] + 1)
+//@   ensures  hpTop == store(old(hpTop), h, ite(takes, value, old(hpTop)[h]))
+//@   ensures  hpPrio == store(old(hpPrio), h, ite(takes, priority, old(hpPrio)[h]))
+
+//@ func (*Heap).Peek
+//@   props C16
+//@   trusted
+//@   requires h != nil
+//@   pure
+//@   ensures  hpN[h] == 0 ==> result == nil
+//@   ensures  hpN[h] > 0 ==> result == hpTop[h]
